@@ -1175,6 +1175,7 @@ _router_entry("C10",
     rp.cmp_shortcut,
     lambda op, r, m, n: r.startswith("h "),
     "case = (history, request); non-trivial = dispatched (to a static or shadowing dynamic route)")
+PROPS["C09"]["props_modules"] = ["Flamego.Props.C09", "Flamego.Props.C09Values"]
 PROPS["C10"]["props_modules"] = ["Flamego.Props.C10", "Flamego.Proofs.Shortcut", "Flamego.Proofs.ShortcutTree"]
 _router_entry("C12",
     "Lean 4 theorems over skeleton/replaceAll/name table + differential correspondence of Router.URLPath / Context.URLPath / Leaf.URLPath",
